@@ -480,6 +480,26 @@ pub fn un() -> OptionParser<(bool, Option<Cmd1>)> {
     construct!(g, cmd).to_options()
 }
 
+/// a hidden *required* argument next to a switch
+pub fn hr() -> OptionParser<(bool, u32)> {
+    let v = short('v').long("verbose").switch();
+    let t = short('t').long("token").argument::<u32>("T").hide();
+    construct!(v, t).to_options()
+}
+
+fn shape() -> impl Parser<(u32, u32)> {
+    let r = short('r').long("rect").req_flag(());
+    let pt = point();
+    construct!(r, pt).adjacent().map(|t| t.1)
+}
+
+/// nested adjacent groups: `--rect --point X Y` (the inner group is itself adjacent), repeated, next to a switch
+pub fn k6() -> OptionParser<(Vec<(u32, u32)>, bool)> {
+    let shapes = shape().many();
+    let s = short('s').long("sw").switch();
+    construct!(shapes, s).to_options()
+}
+
 /// switch declared before a repeated argument (the switch's consumption precedes the loop)
 pub fn g4() -> OptionParser<(bool, Vec<u32>, u32)> {
     let a = short('a').long("alpha").switch();
